@@ -126,6 +126,15 @@ func (e *Enc) evalSpec(x ast.Expr, env *SpecEnv) Val {
 	panic("unreachable")
 }
 
+func isParamName(fn *ssa.Function, name string) bool {
+	for _, p := range fn.Params {
+		if p.Name() == name {
+			return true
+		}
+	}
+	return false
+}
+
 func (e *Enc) specIdent(name string, env *SpecEnv) Val {
 	switch name {
 	case "true":
@@ -134,6 +143,16 @@ func (e *Enc) specIdent(name string, env *SpecEnv) Val {
 		return boolVal("false")
 	case "nil":
 		return Val{Sh: &Shape{K: KInt, T: types.Typ[types.UntypedNil]}, T: "0"}
+	}
+	// the snapshot position wins over the name: after `ep -> privs, privs -> subPrivs` the clause's
+	// `privs` is the variable now called subPrivs, although a variable called privs still exists
+	if env.f != nil && !env.noRename && e.w.uniqueInSnapshot(env.f.fn, name) && !isParamName(env.f.fn, name) {
+		if alt := e.w.renamedLocal(env.f.fn, name); alt != "" && alt != name {
+			ne := *env
+			ne.noRename = true
+			e.renamesUsed[e.w.funcName(env.f.fn)+": "+name+" -> "+alt] = true
+			return e.specIdent(alt, &ne)
+		}
 	}
 	if v, ok := env.vars[name]; ok {
 		return v
@@ -621,8 +640,22 @@ func (e *Enc) specCall(n *ast.CallExpr, env *SpecEnv) Val {
 		if !ok || env.f == nil || env.blk == nil {
 			specFail("local(x): x must be a local variable name and the clause must be evaluated inside a function body")
 		}
+		if e.w.uniqueInSnapshot(env.f.fn, id.Name) {
+			if alt := e.w.renamedLocal(env.f.fn, id.Name); alt != "" && alt != id.Name {
+				if v, ok := e.resolveLocal(env.f, env.blk, alt, env.atHead, env.st); ok {
+					e.renamesUsed[e.w.funcName(env.f.fn)+": "+id.Name+" -> "+alt] = true
+					return v
+				}
+			}
+		}
 		if v, ok := e.resolveLocal(env.f, env.blk, id.Name, env.atHead, env.st); ok {
 			return v
+		}
+		if alt := e.w.renamedLocal(env.f.fn, id.Name); alt != "" && alt != id.Name {
+			if v, ok := e.resolveLocal(env.f, env.blk, alt, env.atHead, env.st); ok {
+				e.renamesUsed[e.w.funcName(env.f.fn)+": "+id.Name+" -> "+alt] = true
+				return v
+			}
 		}
 		specFail("local(%s): no such local", id.Name)
 	case "outer":
@@ -871,6 +904,14 @@ func (e *Enc) specCall(n *ast.CallExpr, env *SpecEnv) Val {
 			rs = shapeOf(fn.Signature.Results())
 		}
 		return e.pureLib(name, args, rs)
+	case "nth":
+		// nth(t, k): the k-th component of a tuple-valued term (a multi-result libcall)
+		v := arg(0)
+		k, err := strconv.Atoi(exprString(n.Args[1]))
+		if err != nil || v.Sh.K != KTuple || k < 0 || k >= len(v.Sub) {
+			specFail("nth(%s, %s): not a tuple component", exprString(n.Args[0]), exprString(n.Args[1]))
+		}
+		return v.Sub[k]
 	case "mkobj":
 		// mkobj(T, field, value, ...): a ghost object of struct type T (not reachable from program state)
 		t := e.w.resolveType(n.Args[0])
@@ -910,7 +951,7 @@ func (e *Enc) specCall(n *ast.CallExpr, env *SpecEnv) Val {
 		ks := keySort(mt)
 		has := e.mapHeap(env.st, mapPath(mt)+"#has", "(Array Int (Array "+ks+" Bool))")
 		e.frameLemmas(has, m.T, map[*Heap]bool{})
-		return boolVal(fmt.Sprintf("(select (select %s %s) %s)", has.Term, m.T, k.T))
+		return boolVal(fmt.Sprintf("(and (not (= %s 0)) (select (select %s %s) %s))", m.T, has.Term, m.T, k.T))
 	case "mapvalsnonnil":
 		// every value stored in the (interface-valued) map is a non-nil interface
 		m := arg(0)
@@ -927,6 +968,27 @@ func (e *Enc) specCall(n *ast.CallExpr, env *SpecEnv) Val {
 		e.ctr["q"]++
 		bv := fmt.Sprintf("k!q%d", e.ctr["q"])
 		return boolVal(fmt.Sprintf("(or (= %s 0) (forall ((%s %s)) (=> (select (select %s %s) %s) (not (= (select (select %s %s) %s) 0)))))", m.T, bv, ks, has.Term, m.T, bv, typ.Term, m.T, bv))
+	case "mapvalstyped":
+		// mapvalstyped(m, T1, ..., Tn): the dynamic type of every value stored in the
+		// (interface-valued) map is one of T1..Tn
+		m := arg(0)
+		mt, ok := m.Sh.T.Underlying().(*types.Map)
+		if !ok {
+			specFail("mapvalstyped of %s", m.Sh.T)
+		}
+		ks := keySort(mt)
+		pth := mapPath(mt)
+		has := e.mapHeap(env.st, pth+"#has", "(Array Int (Array "+ks+" Bool))")
+		typ := e.mapHeap(env.st, pth+"#val#typ", "(Array Int (Array "+ks+" Int))")
+		e.frameLemmas(has, m.T, map[*Heap]bool{})
+		e.frameLemmas(typ, m.T, map[*Heap]bool{})
+		e.ctr["q"]++
+		bv := fmt.Sprintf("k!q%d", e.ctr["q"])
+		var cs []string
+		for _, a := range n.Args[1:] {
+			cs = append(cs, fmt.Sprintf("(= (select (select %s %s) %s) %d)", typ.Term, m.T, bv, e.w.typeTag(e.w.resolveType(a))))
+		}
+		return boolVal(fmt.Sprintf("(or (= %s 0) (forall ((%s %s)) (=> (select (select %s %s) %s) %s)))", m.T, bv, ks, has.Term, m.T, bv, or(cs...)))
 	case "notnil":
 		// notnil(x): non-nil pointer, or interface that is neither nil nor a typed nil pointer
 		v := arg(0)
